@@ -150,6 +150,12 @@ impl TryFrom<&AST> for GenericClass {
                     }
                     has_default = arg.has_default;
                 }
+                for (i, arg) in class_args.iter().enumerate() {
+                    if class_args[..i].iter().any(|earlier| earlier.name == arg.name) {
+                        let msg = format!("Duplicate argument '{}'", arg.name);
+                        return Err(vec![TypeErr::new(arg.pos, &msg)]);
+                    }
+                }
                 let mut class_args = if class_args.is_empty() {
                     class_args
                 } else {
